@@ -319,11 +319,14 @@ package nfa
 //@ func (*CharClassSearcher).IsMatch
 //@   props C19 C07 C01
 //@   requires ccOK(s) && len(haystack) <= 140737488355328
-//@   ensures result == (exists i :: ccWin(s, haystack, i))
+//@   ghost w = 0
+//@   ensures result ==> ccWin(s, haystack, w)
+//@   ensures !result ==> (forall i :: !ccWin(s, haystack, i))
 //@   loop 1: invariant 0 <= i && i <= n && n == len(haystack) && 0 <= matchLen && matchLen < s.minMatch && matchLen <= i
 //@   loop 1: invariant forall k :: i - matchLen <= k && k < i ==> s.membership[haystack[k]]
 //@   loop 1: invariant matchLen < i ==> !s.membership[haystack[i - matchLen - 1]]
 //@   loop 1: invariant forall j :: 0 <= j && j + s.minMatch <= i ==> !ccWin(s, haystack, j)
+//@   loop 1: exit ghost w = i + 1 - matchLen
 //@   loop 1: decreases n - i
 
 // applicability of the character-class searcher: only a GREEDY one-or-more repetition of an ASCII class is a
@@ -349,3 +352,35 @@ package nfa
 //@   ensures result2 == pvFound(p, haystack)
 //@   ensures result2 ==> result0 == pvStart(p, haystack) && result1 == pvEnd(p, haystack) && 0 <= result0 && result0 <= result1 && result1 <= len(haystack)
 //@   ensures !result2 ==> result0 == -1 && result1 == -1
+
+// ---- C19: first-byte branch dispatch ^(?:b0|b1|...) with pairwise disjoint first bytes ----
+// A branch matcher is exact for: a literal (the branch matches exactly that prefix), a literal followed by one ASCII
+// class byte, or a greedy class+ (the longest non-empty run). first(m, b): b can start a match of the branch.
+//@ spec func bmExact(d *BranchDispatcher, i int) bool = (len(d.branchMatchers[i].literal) > 0 && !d.branchMatchers[i].hasCharClass) || (len(d.branchMatchers[i].literal) == 0 && d.branchMatchers[i].hasCharClass && !d.branchMatchers[i].hasNext && d.branchMatchers[i].minMatch == 1)
+//@ spec func bmFirst(d *BranchDispatcher, i int, b int) bool = (len(d.branchMatchers[i].literal) > 0 && d.branchMatchers[i].literal[0] == b) || (len(d.branchMatchers[i].literal) == 0 && d.branchMatchers[i].charClass[b])
+//@ opaque spec func bdMatch(d *BranchDispatcher, h []byte, i int, n int) bool = 0 <= i && i < len(d.branchMatchers) && ite(len(d.branchMatchers[i].literal) > 0, len(d.branchMatchers[i].literal) <= len(h) && (forall k :: 0 <= k && k < len(d.branchMatchers[i].literal) ==> h[k] == d.branchMatchers[i].literal[k]) && ite(d.branchMatchers[i].hasNext, n == len(d.branchMatchers[i].literal) + 1 && n <= len(h) && d.branchMatchers[i].next[h[n-1]], n == len(d.branchMatchers[i].literal)), 1 <= n && n <= len(h) && (forall k :: 0 <= k && k < n ==> d.branchMatchers[i].charClass[h[k]]) && (n == len(h) || !d.branchMatchers[i].charClass[h[n]]))
+//@ spec func bdOK(d *BranchDispatcher) bool = d != nil && len(d.branchMatchers) <= 127 && !d.canMatchEmpty && (forall i :: 0 <= i && i < len(d.branchMatchers) ==> bmExact(d, i)) && (forall b :: 0 <= b && b <= 255 ==> -1 <= d.dispatch[b] && d.dispatch[b] < len(d.branchMatchers) && (d.dispatch[b] >= 0 ==> bmFirst(d, d.dispatch[b], b)) && (forall i :: 0 <= i && i < len(d.branchMatchers) && bmFirst(d, i, b) ==> d.dispatch[b] == i))
+//@ func (*BranchDispatcher).Search
+//@   props C19
+//@   requires bdOK(d)
+//@   opt dead_returns=3
+//@   ensures result2 ==> result0 == 0 && len(haystack) > 0 && bdMatch(d, haystack, d.dispatch[haystack[0]], result1)
+//@   ensures !result2 ==> result0 == -1 && result1 == -1 && (forall i, n :: !bdMatch(d, haystack, i, n))
+//@   loop 1: invariant -1 <= rangeindex && rangeindex < rangelen && rangelen == len(m.literal) && len(m.literal) <= len(haystack) && (forall k :: 0 <= k && k <= rangeindex ==> haystack[k] == m.literal[k])
+//@   loop 1: decreases rangelen - rangeindex
+//@   loop 2: invariant -1 <= rangeindex && rangeindex < rangelen && rangelen == len(haystack) && count == rangeindex + 1 && (forall k :: 0 <= k && k <= rangeindex ==> m.charClass[haystack[k]])
+//@   loop 2: decreases rangelen - rangeindex
+
+//@ func (*BranchDispatcher).IsMatch
+//@   props C19
+//@   requires bdOK(d)
+//@   opt dead_returns=3
+//@   ghost w = 0
+//@   ensures result ==> len(haystack) > 0 && bdMatch(d, haystack, d.dispatch[haystack[0]], w)
+//@   ensures !result ==> (forall i, n :: !bdMatch(d, haystack, i, n))
+//@   loop 1: invariant -1 <= rangeindex && rangeindex < rangelen && rangelen == len(m.literal) && len(m.literal) <= len(haystack) && (forall k :: 0 <= k && k <= rangeindex ==> haystack[k] == m.literal[k])
+//@   loop 1: decreases rangelen - rangeindex
+//@   loop 2: invariant -1 <= rangeindex && rangeindex < rangelen && rangelen == len(haystack) && count == rangeindex + 1 && (forall k :: 0 <= k && k <= rangeindex ==> m.charClass[haystack[k]])
+//@   loop 1: exit ghost w = len(m.literal) + ite(m.hasNext, 1, 0)
+//@   loop 2: exit ghost w = count
+//@   loop 2: decreases rangelen - rangeindex
